@@ -574,6 +574,21 @@ def gen_routes(refs, tasks):
     want("AttrRef", "_set_value", ["value"], ["owner = BaseRef._mk_value(self._owner)", "attr = BaseRef._mk_value(self._key)", "setattr(owner, attr, value)"])
     want("DepEnv", "__setattr__", ["key", "value"], ["self._[key] = value"], tasks)
     want("DepEnv", "__setitem__", ["key", "value"], ["self._[key] = value"], tasks)
+    # the container registry: a label is bound once; a refused second container leaves the registry as it was
+    for name, cls_ in (("ref", "Ref"), ("refattr", "ObjectAttrRef")):
+        f = meth("Manager", name, ["container", "label"], tasks)
+        if [ast.unparse(d) for d in f.args.defaults] != ["None", "'_'"] or not same_body(f, [
+                "if container is None:\n    container = AttrDict()", f"objref = {cls_}(container, label, self)",
+                "assert label not in self.containers", "self.containers[label] = objref", "return objref"]):
+            raise Unsupported(f"Manager.{name} changed:\n" + "\n".join(body_src(f)))
+    f = meth("Manager", "newenv", ["label", "data"], tasks)
+    if [ast.unparse(d) for d in f.args.defaults] != ["'_'", "None"] or not same_body(f, [
+            "if data is None:\n    data = AttrDict()", "ref = self.ref(data, label=label)", "return DepEnv(data, ref)"]):
+        raise Unsupported("Manager.newenv changed:\n" + "\n".join(body_src(f)))
+    # the library's own function object is a pure function of its two tables (the model reads function objects as pure)
+    fn = ast.parse(open(os.path.join(REPO, "xdeps", "functions.py")).read())
+    want("FunctionPieceWiseLinear", "__init__", ["x", "y"], ["self.x = np.array(x)", "self.y = np.array(y)"], fn)
+    want("FunctionPieceWiseLinear", "__call__", ["x"], ["return np.interp(x, self.x, self.y, left=self.y[0], right=self.y[-1])"], fn)
     return ("\n(* ---- the assignment routes (shape-checked against refs.py / tasks.py on every run): the location of item / attribute\n"
             "   `key` of the location `owner` is the path owner ++ [key]; the members of the reference object itself (attr in dir(self))\n"
             "   are the known finding ref-member-attribute and outside the model *)\n"
